@@ -25,6 +25,13 @@ trees holding the same plates can be told apart), ``fibre`` is 1-based, zero nev
 zero-padding is distinguishable from data.  Columns that real consumers interpret keep their real
 meaning: plugmap FIBERID, zbest/zall PLATE, MJD, FIBERID (they identify their origin anyway).
 
+``table_variation=<int>`` (opt-in) makes the tables as heterogeneous between plate files as a real survey's:
+string columns are only as wide as the longest value of that file (values get a suffix of 0..8 characters, the
+maximum differs per file), extra integer columns are int16 / int32 / int64 and extra float columns float32 / float64
+depending on the file (a wider file holds values the narrower type cannot represent), plain id columns are int32 or
+int64, and the column order differs from file to file.  ``desc['columns'][table]`` lists (name, kind) of every column
+written, ``file_rec['tab'][table]`` the per-file order / formats; ``table_cell`` returns the full value written.
+
 ``content='spectra'`` stores smooth positive spectra + noise instead (flux), constant inverse
 variance, zero masks: what a pipeline such as template_input needs to run to completion.
 """
@@ -52,6 +59,20 @@ TABLE_COLUMNS = {
     'photoplate': (('RUN', 'i'), ('PSFFLUX', 'd5'), ('FLAGS', 'i'), ('OBJC_TYPE', 's')),
 }
 STRLEN = 16
+# extra columns written when table_variation is on: 'vi' int16|int32|int64, 'vf' float32|float64 depending on the file
+VAR_COLUMNS = {
+    'plugmap': (('SPECTROGRAPHID', 'vi'), ('XFOCAL', 'vf'), ('SUBTYPE', 's')),
+    'zbest': (('NPOLY', 'vi'), ('RCHI2', 'vf'), ('SUBCLASS', 's')),
+    'zall': (('NPOLY', 'vi'), ('RCHI2', 'vf'), ('SUBCLASS', 's')),
+    'photoplate': (('NCHILD', 'vi'), ('AIRMASS', 'vf'), ('SKYVERSION', 's')),
+}
+SUFFIX = '-abcdefg'
+
+
+def table_columns(file_rec_or_desc, table):
+    """(name, kind) of the columns of ``table`` in this tree (tuple; TABLE_COLUMNS[table] without table_variation)."""
+    cols = (file_rec_or_desc.get('columns') or {}).get(table)
+    return tuple(tuple(c) for c in cols) if cols else TABLE_COLUMNS[table]
 
 
 # ------------------------------------------------------------------------------------------------
@@ -104,11 +125,18 @@ def string_code(file_index, table, column, fibre):
 def table_cell(file_rec, table, colname, fibre, znum=1):
     """Expected content of column ``colname`` of ``table`` for one fibre of one file (scalar, str or
     float64[5]); ``znum`` (1-based) selects the fit within a fibre for table 'zall'."""
-    cols = TABLE_COLUMNS[table]
+    tab = (file_rec.get('tab') or {}).get(table)
+    cols = TABLE_COLUMNS[table] + (VAR_COLUMNS[table] if tab else ())
     names = [c[0] for c in cols]
     ci = names.index(colname)
     kind = cols[ci][1]
     fi = file_rec['index']
+    if kind in ('vi', 'vf'):
+        narrow = fi * 1024 + int(fibre)                      # <= 32767: fits int16, exact in float32
+        fmt = tab['fmt'][colname]
+        if kind == 'vi':
+            return narrow + {'i2': 0, 'i4': 1 << 20, 'i8': 1 << 40}[fmt]
+        return narrow + 0.5 + (2.0 ** -30 if fmt == 'f8' else 0.0)
     if kind == 'fiberid':
         return fibre
     if kind == 'plate':
@@ -117,7 +145,10 @@ def table_cell(file_rec, table, colname, fibre, znum=1):
         return file_rec['mjd']
     el = (znum - 1) if table == 'zall' else 0
     if kind == 's':
-        return string_code(fi, table, ci, fibre) + ('Z%d' % znum if table == 'zall' else '')
+        v = string_code(fi, table, ci, fibre) + ('Z%d' % znum if table == 'zall' else '')
+        if tab:
+            v += SUFFIX[:(int(fibre) * 3 + fi + ci) % (tab['extra'][colname] + 1)]
+        return v
     if kind in ('i', 'd'):
         return int(table_code(fi, table, ci, fibre, el))
     if kind == 'd5':
@@ -135,25 +166,61 @@ def loglam(file_rec):
 # ------------------------------------------------------------------------------------------------
 def _table_array(file_rec, table, nper=1):
     nf = file_rec['nfiber']
-    cols = TABLE_COLUMNS[table]
+    tab = (file_rec.get('tab') or {}).get(table)
+    cols = TABLE_COLUMNS[table] + (VAR_COLUMNS[table] if tab else ())
+    kinds = dict(cols)
+    order = tab['order'] if tab else [c[0] for c in cols]
+    nrows = nf * nper
+    values = {}
+    for name in order:
+        values[name] = [table_cell(file_rec, table, name, r // nper + 1, znum=r % nper + 1) for r in range(nrows)]
     dt = []
-    for name, kind in cols:
-        if kind in ('fiberid', 'plate', 'mjd', 'i'):
+    for name in order:
+        kind = kinds[name]
+        if kind in ('fiberid', 'plate', 'mjd'):
             dt.append((name, 'i4'))
+        elif kind == 'i':
+            dt.append((name, tab['fmt'][name] if tab else 'i4'))
+        elif kind in ('vi', 'vf'):
+            dt.append((name, tab['fmt'][name]))
         elif kind == 'd':
             dt.append((name, 'f8'))
         elif kind == 'd5':
             dt.append((name, 'f8', (5,)))
+        elif tab:
+            # as wide as the longest value of THIS file, like the real reductions
+            dt.append((name, 'S%d' % max([len(v) for v in values[name]] + [1])))
         else:
             dt.append((name, 'S%d' % (STRLEN + (2 if table == 'zall' else 0))))
-    nrows = nf * nper
     a = np.zeros(nrows, dtype=dt)
-    for r in range(nrows):
-        fibre = r // nper + 1
-        z = r % nper + 1
-        for name, kind in cols:
-            a[name][r] = table_cell(file_rec, table, name, fibre, znum=z)
+    for name in order:
+        for r in range(nrows):
+            a[name][r] = values[name][r]
     return a
+
+
+def _vary_tables(seed, position):
+    """per-file table layout: {table: {'order': [names], 'fmt': {name: dtype}, 'extra': {name: longest suffix}}}"""
+    import random
+    rv = random.Random('%s|%d' % (seed, position))
+    out = {}
+    for table in TABLE_COLUMNS:
+        cols = TABLE_COLUMNS[table] + VAR_COLUMNS[table]
+        order = [c[0] for c in cols]
+        if rv.random() < 0.7:
+            rv.shuffle(order)
+        fmt, extra = {}, {}
+        for name, kind in cols:
+            if kind == 'vi':
+                fmt[name] = rv.choice(['i2', 'i2', 'i4', 'i8'])
+            elif kind == 'vf':
+                fmt[name] = rv.choice(['f4', 'f8'])
+            elif kind == 'i':
+                fmt[name] = rv.choice(['i4', 'i4', 'i8'])
+            elif kind == 's':
+                extra[name] = rv.choice([0, 0, 1, 2, 4, 7, 8])
+        out[table] = {'order': order, 'fmt': fmt, 'extra': extra}
+    return out
 
 
 def _spectra(file_rec, rng):
@@ -204,7 +271,7 @@ def _write_table_file(path, arr, header=None):
 
 def write_tree(root, plates, run2d='v5_7_0', run1d=None, layout='tree', zbest=True, zall=0,
                photoplate=None, platelist=False, file_base=0, content='ids', seed=0,
-               resolve='2010-05-23'):
+               resolve='2010-05-23', table_variation=None):
     """Write a synthetic survey tree below ``root`` and return its description.
 
     plates     [(plate, mjd, nfiber, npix, coeff0, coeff1), ...]; the same plate may occur with several MJDs
@@ -217,6 +284,7 @@ def write_tree(root, plates, run2d='v5_7_0', run1d=None, layout='tree', zbest=Tr
     platelist  write <topdir>/platelist.fits (PLATE, MJD, RUN2D, RUN1D, N_TOTAL, STATUS1D, RACEN, DECCEN)
     file_base  first file index used in the id codes
     content    'ids' (unique-id principle) or 'spectra' (smooth spectra, runnable through the pipeline)
+    table_variation  None, or an int seed: per-file string widths, int16/32/64 and float32/64 columns, column order
 
     Returned dict (JSON-able): root, topdir, path (flat layout), match, resolve, run2d, run1d, layout,
     files=[{index, plate, mjd, nfiber, npix, coeff0, coeff1, dir, spplate, zbest, zall, photoplate}],
@@ -235,7 +303,10 @@ def write_tree(root, plates, run2d='v5_7_0', run1d=None, layout='tree', zbest=Tr
     desc = {'root': root, 'topdir': topdir, 'path': flat if layout == 'flat' else None, 'match': match,
             'resolve': os.path.join(root, 'resolve', resolve), 'run2d': run2d, 'run1d': run1d,
             'layout': layout, 'files': [], 'key': {}, 'latest': {}, 'nper': int(zall), 'content': content,
-            'has_zbest': bool(zbest), 'photoplate': photoplate, 'platelist': bool(platelist)}
+            'has_zbest': bool(zbest), 'photoplate': photoplate, 'platelist': bool(platelist),
+            'table_variation': table_variation,
+            'columns': {t: [list(c) for c in TABLE_COLUMNS[t] + (VAR_COLUMNS[t] if table_variation is not None else ())]
+                        for t in TABLE_COLUMNS}}
     os.makedirs(topdir, exist_ok=True)
     for n, (plate, mjd, nfiber, npix, c0, c1) in enumerate(plates):
         plate, mjd, nfiber, npix = int(plate), int(mjd), int(nfiber), int(npix)
@@ -248,7 +319,8 @@ def write_tree(root, plates, run2d='v5_7_0', run1d=None, layout='tree', zbest=Tr
         d = flat if layout == 'flat' else os.path.join(topdir, run2d, '%04d' % plate)
         rec = {'index': file_base + n, 'plate': plate, 'mjd': mjd, 'nfiber': nfiber, 'npix': npix,
                'coeff0': float(c0), 'coeff1': float(c1), 'dir': d,
-               'spplate': os.path.join(d, 'spPlate-%s.fits' % pm), 'zbest': None, 'zall': None, 'photoplate': None}
+               'spplate': os.path.join(d, 'spPlate-%s.fits' % pm), 'zbest': None, 'zall': None, 'photoplate': None,
+               'tab': _vary_tables(table_variation, n) if table_variation is not None else None}
         os.makedirs(os.path.join(d, run1d), exist_ok=True)
         write_spplate(rec['spplate'], rec, content=content, rng=rng)
         if zbest:
